@@ -164,13 +164,17 @@ class USBControlEndpoint(Elaboratable):
             request_mux.add_interface(handler.interface)
 
 
+        # Only SETUP transactions addressed to this endpoint are ours; the setup decoder itself
+        # does not know our endpoint number.
+        setup_targeted = (interface.tokenizer.endpoint == self._endpoint_number)
+
         # ... and hook it up.
         m.d.comb += [
             setup_decoder.packet                   .connect(request_handler.setup),
             interface.tokenizer                    .connect(request_handler.tokenizer),
 
             request_handler.tx                     .attach(interface.tx),
-            interface.handshakes_out.ack           .eq(setup_decoder.ack | request_handler.handshakes_out.ack),
+            interface.handshakes_out.ack           .eq((setup_decoder.ack & setup_targeted) | request_handler.handshakes_out.ack),
             interface.handshakes_out.nak           .eq(request_handler.handshakes_out.nak),
             interface.handshakes_out.stall         .eq(request_handler.handshakes_out.stall),
             interface.handshakes_in                .connect(request_handler.handshakes_in, exclude=['ack']),
@@ -196,6 +200,9 @@ class USBControlEndpoint(Elaboratable):
             # Per [USB2.0: 8.5.3], the first packet of the DATA or STATUS phase always carries a DATA1 PID.
             interface.tx_pid_toggle                .eq(request_handler.tx_data_pid)
         ]
+
+        # Don't report SETUP packets meant for other endpoints to our request handlers.
+        m.d.comb += request_handler.setup.received.eq(setup_decoder.packet.received & setup_targeted)
 
 
         #
